@@ -27,11 +27,50 @@ inductive OdsResult
   | unsupported
   deriving Repr, Inhabited, DecidableEq
 
-/-- the text cutplace takes from a cell: `""` without a paragraph, else the `text` of the first `text:p` -/
-def cellValue (c : Xml) : Option Str :=
-  match (c.childrenTagged "text:p").head? with
-  | none => some []
-  | some p => p.text
+/-- outcome of collecting text: `none` = outside the model (`unsupported`), `some none` = data-format error -/
+abbrev TextOut := Option (Option Str)
+
+def TextOut.append (a b : TextOut) : TextOut :=
+  match a, b with
+  | none, _ => none
+  | some none, none => none
+  | some none, some _ => some none
+  | some (some _), none => none
+  | some (some _), some none => some none
+  | some (some x), some (some y) => some (some (x ++ y))
+
+mutual
+/-- `"".join(_ods_text_parts(element))`: the element's own text, then for every child what it stands for and its tail -/
+def textParts : Xml → TextOut
+  | .node _ _ text children _ => TextOut.append (some (some (text.getD []))) (childrenParts children)
+
+/-- the loop over the children in `_ods_text_parts` -/
+def childrenParts : List Xml → TextOut
+  | [] => some (some [])
+  | .node tag attrs text children tail :: rest =>
+    let own : TextOut :=
+      if tag == "text:s" then
+        -- `" " * int(count_text)`: a count below 1 gives no blank at all
+        let countText : Str := ((attrs.find? (fun p => p.1 == "text:c")).map (·.2)).getD ['1']
+        if !isAscii countText then none
+        else match pyIntBase10 countText with
+          | none => some none
+          | some n => some (some (List.replicate n.toNat ' '))
+      else if tag == "text:tab" then some (some ['\t'])
+      else if tag == "text:line-break" then some (some ['\n'])
+      else textParts (.node tag attrs text children tail)
+    TextOut.append (TextOut.append own (some (some (tail.getD [])))) (childrenParts rest)
+end
+
+/-- the paragraphs of a cell joined by line feeds -/
+def joinParas : List Xml → TextOut
+  | [] => some (some [])
+  | [p] => textParts p
+  | p :: rest => TextOut.append (TextOut.append (textParts p) (some (some ['\n']))) (joinParas rest)
+
+/-- the text cutplace takes from a cell (since the repair of the cell text extraction): every `text:p` child, the pieces
+of each put together, paragraphs separated by a line feed; `""` without a paragraph -/
+def cellValue (c : Xml) : TextOut := joinParas (c.childrenTagged "text:p")
 
 /-- one `table:table-row`: `none` = `DataFormatError` (bad repeat count) -/
 def odsRow (row : Xml) : Option (Option (List (Option Str))) :=
@@ -46,10 +85,13 @@ def odsRow (row : Xml) : Option (Option (List (Option Str))) :=
         | some n =>
           if n < 1 then some none
           else
-            let value : Option Str := cellValue c
-            match cells rest with
-            | some (some more) => some (some (List.replicate n.toNat value ++ more))
-            | other => other
+            match cellValue c with
+            | none => none
+            | some none => some none
+            | some (some value) =>
+              match cells rest with
+              | some (some more) => some (some (List.replicate n.toNat (some value) ++ more))
+              | other => other
   cells (row.childrenTagged "table:table-cell")
 
 def odsRowsOf : List Xml → Option (Option (List (List (Option Str))))
